@@ -20,7 +20,15 @@ use crate::util::{block_on, guard, hash64};
 
 pub fn arg_for(ty: &Type, t: &mut Tape) -> ArgValue {
     match ty {
-        Type::Int => ArgValue::Int(t.pick(3) as i128),
+        // mostly small, sometimes at the edges of the host integer (a chain like (x + MAX) + MAX is in range
+        // for x = MIN only when evaluated left to right)
+        Type::Int => ArgValue::Int(match t.weighted(&[6, 1, 1, 1, 1]) {
+            0 => t.pick(3) as i128,
+            1 => -1 - t.pick(3) as i128,
+            2 => i128::MIN + t.pick(3) as i128,
+            3 => i128::MAX - t.pick(3) as i128,
+            _ => -(1i128 << 126),
+        }),
         Type::Bool => ArgValue::Bool(t.flag()),
         Type::Bytes => ArgValue::Bytes(crate::ggen::fixed_bytes(150, 28)),
         Type::Address => ArgValue::Address(crate::ggen::shelley_address(0, 5, false)),
